@@ -7,7 +7,7 @@ from sa import flow
 from sa.model import AnalysisError, dotted, unparse
 from sa.own import BORROWED, Ownership
 from sa.rules import LEVEL_TEXT, rule
-from sa.rules.util import const_str, external_name, is_self_attr, iter_body_nodes, own_methods, qual
+from sa.rules.util import const_str, ctor_target, external_name, is_self_attr, iter_body_nodes, own_methods, qual
 
 LEVEL_TEXT["C05"] = (
     "Decides the ownership clauses of C05: no task callable defined in the repository mutates an argument it received "
@@ -419,3 +419,118 @@ def r05f(ctx):
             for node, target, what in hits[:1]:
                 ctx.bad(f"{qual(c, fn)}:{target.id}", c.module.loc(node), f"{what}: `{target.id}` may still be `self` on this path (no .copy() / selection in between), so the method rewrites the caller's collection in place - its name, dtypes and later computes change although the method is documented to return a new object")
     ctx.floor("collection methods", n, 200)
+
+
+# (function) -> reason its argument is meant to be written to
+R05G_EXCEPTIONS = {
+    "_collection.handle_out": "`out=` is the documented output argument: the caller asks for its collection to be overwritten",
+    "_expr._get_predicate_components": "`components` is the accumulator of the recursion; every external caller passes a fresh `[]`",
+    "_repartition._clean_new_division_boundaries": "both callers pass a list they have just built (np.cumsum(...).tolist() / a local accumulator)",
+    "io.parquet._aggregate_statistics_to_file": "`stats` is a list of per-row-group dicts produced by the caller for this call only",
+}
+
+
+@rule(
+    "R05g",
+    ["C05", "C08"],
+    """CALLERS' OBJECTS ARE NOT EDITED: a function or method of the package outside the expression classes (the API layer and
+    its helpers) does not mutate an object it received as an argument - `kwargs_dict.update(...)`, `lst.append(...)`,
+    `d[k] = v` on a parameter that was not copied first. Such an object usually ends up as an operand: editing it changes
+    an expression that was already named (and any other expression the caller builds from the same object).""",
+)
+def r05g(ctx):
+    model = ctx.model
+    n = 0
+    for mod, cls, fn in model.all_functions():
+        if (cls is not None and model.is_expr(cls)) or mod.name.startswith("dask_expr.diagnostics"):
+            continue
+        params = {a.arg for a in fn.args.posonlyargs + fn.args.args + fn.args.kwonlyargs} - {"self", "cls"}
+        if not params:
+            continue
+        n += 1
+        dp = flow.Defs(fn)
+
+        def root(e, params=params, dp=dp):
+            if isinstance(e, ast.Name) and e.id in params:
+                return any(d.kind == "param" for d in dp.reaching(e.id, e))
+            return False
+
+        hits = list(Ownership(fn, root).borrowed_mutations())
+        if not hits:
+            continue
+        fq = qual(cls, fn) if cls is not None else f"{mod.name.split('.', 1)[-1]}.{fn.name}"
+        if fq in R05G_EXCEPTIONS:
+            ctx.exempt(fq, mod.loc(hits[0][0]), R05G_EXCEPTIONS[fq])
+            continue
+        node, target, what = hits[0]
+        ctx.bad(f"{fq}:{ast.unparse(target)[:40]}", mod.loc(node), f"{what}: `{ast.unparse(target)[:60]}` may still be the object the caller passed in (no copy on this path), so the caller's dict / list - and every expression already built from it - changes")
+    ctx.ok("API-layer functions leave their arguments alone", "", f"{n} functions examined")
+    ctx.floor("functions with parameters outside expression classes", n, 350)
+
+
+def _random_fallback_by_or(model, mod, fn):
+    """`p = p or <random draw>` / `f(p or <random draw>)` for a parameter p"""
+    from sa.rules.r08 import _forbidden_in
+
+    params = {a.arg for a in fn.args.posonlyargs + fn.args.args + fn.args.kwonlyargs}
+    out = []
+    for n in iter_body_nodes(fn):
+        if isinstance(n, ast.BoolOp) and isinstance(n.op, ast.Or) and isinstance(n.values[0], ast.Name) and n.values[0].id in params:
+            for later in n.values[1:]:
+                for c in ast.walk(later):
+                    if isinstance(c, ast.Call):
+                        ext = external_name(model, mod, c.func) if model is not None else ast.unparse(c.func)
+                        e = (ext or "").replace("np.random", "numpy.random")
+                        if e.startswith(("numpy.random.", "random.", "uuid.", "secrets.", "time.time")):
+                            out.append((n, n.values[0].id, e))
+    return out
+
+
+@rule(
+    "R05h",
+    ["C05", "C08"],
+    """RANDOMNESS BECOMES PLAIN DATA AT THE API: (a) no stateful generator object (numpy RandomState / default_rng, random.Random)
+    is handed to an expression constructor - an expression that holds a generator draws from it again every time the
+    optimizer re-creates the node, so two computes of one collection differ; seeds are drawn once and passed as data
+    (random_state_data). (b) a random fallback for a user parameter is guarded by `is None`, not by `or`: `seed or
+    randint()` also replaces the valid seed 0, so the same call is named differently on every run.""",
+)
+def r05h(ctx):
+    model = ctx.model
+    n_ctor = n_fb = 0
+    GEN = ("numpy.random.RandomState", "numpy.random.default_rng", "numpy.random.Generator", "random.Random")
+    for mod, cls, fn in model.all_functions():
+        fq = qual(cls, fn) if cls is not None else f"{mod.name.split('.', 1)[-1]}.{fn.name}"
+        defs = None
+        for c in (x for x in iter_body_nodes(fn) if isinstance(x, ast.Call)):
+            r = ctor_target(model, mod, cls, c)
+            if r is None:
+                continue
+            for a in list(c.args) + [k.value for k in c.keywords]:
+                if not isinstance(a, ast.Name):
+                    continue
+                if defs is None:
+                    defs = flow.Defs(fn)
+                n_ctor += 1
+                for d in defs.reaching(a.id, c):
+                    v = d.value
+                    if isinstance(v, ast.Call):
+                        ext = (external_name(model, mod, v.func) or "").replace("np.random", "numpy.random")
+                        if ext.startswith(GEN):
+                            ctx.bad(f"{fq}->{r[0].name}:{a.id}:generator-operand", mod.loc(c), f"`{a.id}` may hold the generator object `{ast.unparse(v)[:60]}` and is passed to {r[0].name}(...): the expression draws from a stateful generator whenever it is re-created, so repeated computes of one collection give different rows")
+        for node, p, src in _random_fallback_by_or(model, mod, fn):
+            n_fb += 1
+            ctx.bad(f"{fq}:{p}:random-fallback-by-or", mod.loc(node), f"`{ast.unparse(node)[:80]}` replaces every falsy `{p}` (0, False) by a draw from {src}: a valid value given by the user is silently ignored and the query gets a new name on every run (test `{p} is None`)")
+    import os
+
+    ex = os.path.join(os.path.dirname(os.path.dirname(__file__)), "examples", "r05h_positive.py")
+    tree = ast.parse(open(ex).read())
+    for node in ast.walk(tree):
+        for ch in ast.iter_child_nodes(node):
+            ch._parent = node  # type: ignore[attr-defined]
+    flagged = {f.name for f in tree.body if isinstance(f, ast.FunctionDef) and _random_fallback_by_or(None, None, f)}
+    if flagged != {"timeseries_bad"}:
+        raise AnalysisError(f"R05h self-check failed: positive example flagged {sorted(flagged)}, expected ['timeseries_bad']")
+    ctx.ok("examples/r05h_positive.py", "sa/examples/r05h_positive.py", "positive example flagged, `is None` twin is not")
+    ctx.ok("constructor arguments are not generator objects", "", f"{n_ctor} named constructor arguments traced to their definitions")
+    ctx.floor("named constructor arguments traced", n_ctor, 500)
